@@ -28,7 +28,7 @@ import itertools
 import re
 
 from .core import AnalysisError
-from .objmodel import ClassModel, install_re, new_parser_state
+from .objmodel import ClassModel, install_re, new_parser_state, open_checkpoints
 from .ordabs import Ev, ModelRaise, Obj, Sym, Unsupported
 from .repo import Repo
 
@@ -114,7 +114,7 @@ def observe(state: Obj, pairs: list, result: object) -> dict:
     return {
         "result": result, "pos": state.pos, "stack": list(state.user_stack.__dict__.get("items", [])), "pairs": [str(p) if not isinstance(p, Obj) else f"Pair({p.__dict__.get('name')},{p.__dict__.get('start')},{p.__dict__.get('end')})" for p in pairs],
         "frames": len(state.rule_stack.__dict__.get("items", [])), "atomic": state.atomic_depth.__dict__.get("_value"), "negdepth": state.neg_pred_depth,
-        "tags": list(state.tag_stack), "open_checkpoints": len(state.__dict__.get("_pos_history", [])), "suppress": bool(state.__dict__.get("_suppress_failures")),
+        "tags": list(state.tag_stack), "open_checkpoints": open_checkpoints(state), "suppress": bool(state.__dict__.get("_suppress_failures")),
     }
 
 
@@ -405,7 +405,6 @@ def check_checkpoint_cover(repo: Repo, where: str) -> tuple[int, list[tuple[str,
                     cm.call(st, "checkpoint")
                     log.clear()
                     st.pos = 7
-                hist_before = list(st.__dict__.get("_pos_history", []))
                 cm.call(st, meth)
             except ModelRaise as err:
                 bad.append((f"{meth}() raises", f"{desc}: {err}"))
@@ -415,13 +414,41 @@ def check_checkpoint_cover(repo: Repo, where: str) -> tuple[int, list[tuple[str,
                 if got != ops_:
                     how = "does not apply" if not got else "applies"
                     bad.append((f"{meth}() {how} {'/'.join(got) or ops_[0]} to {comp} where exactly one '{ops_[0]}' is specified", f"{desc}: operations on {comp}: {got}"))
-            hist = list(st.__dict__.get("_pos_history", []))
-            if meth == "checkpoint" and hist != hist_before + [3]:
-                bad.append(("checkpoint() does not save the position", f"{desc}: saved positions {hist}"))
-            if meth == "ok" and (hist != hist_before[:-1] or st.pos != 7):
-                bad.append(("ok() does not discard exactly the saved position, or moves the position", f"{desc}: saved positions {hist_before} -> {hist}, position {st.pos}"))
-            if meth == "restore" and (hist != hist_before[:-1] or st.pos != 3):
-                bad.append(("restore() does not reinstate the saved position", f"{desc}: saved positions {hist_before} -> {hist}, position {st.pos} (saved 3)"))
+            if meth == "ok" and st.pos != 7:
+                bad.append(("ok() does not discard exactly the saved position, or moves the position", f"{desc}: position {st.pos} after ok() (was 7)"))
+            if meth == "restore" and st.pos != 3:
+                bad.append(("restore() does not reinstate the saved position", f"{desc}: position {st.pos} (saved 3)"))
+        # the position under nested checkpoints, by behaviour alone (whatever holds the saved positions): checkpoint()
+        # saves exactly one position, ok() discards exactly that one and keeps the cursor, restore() reinstates it
+        for inner in ("ok", "restore"):
+            for outer in ("ok", "restore"):
+                n += 1
+                log = {}
+                st, _ = fresh_state(cm, (), None, [])
+                for comp in ("user_stack", "rule_stack", "atomic_depth"):
+                    st.__dict__[comp] = recorder(comp, nonempty, log)
+                desc = f"position 3, checkpoint(), position 7, checkpoint(), position 9, {inner}(), {outer}() with {'non-empty' if nonempty else 'empty'} components"
+                try:
+                    st.pos = 3
+                    cm.call(st, "checkpoint")
+                    st.pos = 7
+                    cm.call(st, "checkpoint")
+                    st.pos = 9
+                    cm.call(st, inner)
+                    p1 = st.pos
+                    cm.call(st, outer)
+                    p2 = st.pos
+                except ModelRaise as err:
+                    bad.append(("checkpoint / ok / restore raise under nested checkpoints", f"{desc}: {err}"))
+                    continue
+                w1 = 9 if inner == "ok" else 7
+                w2 = 3 if outer == "restore" else w1
+                if (p1, p2) != (w1, w2):
+                    if inner == "restore" and p1 != w1 or outer == "restore" and p2 != w2:
+                        which = "checkpoint() does not save the position" if (inner, outer) == ("restore", "restore") and p1 == 9 else "restore() does not reinstate the saved position"
+                    else:
+                        which = "ok() does not discard exactly the saved position, or moves the position"
+                    bad.append((which, f"{desc}: position {p1} after {inner}() (specified {w1}), {p2} after {outer}() (specified {w2})"))
     # the pending tags: a rule takes the top tag for its pair (Rule.parse pops it), so an abandoned attempt must give
     # it back - restore() reinstates the tag stack of the checkpoint, ok() keeps what the attempt left, nested
     # checkpoints pair up (whatever the representation of the saved copies)
